@@ -7,6 +7,7 @@ import (
 	"os"
 	"os/exec"
 	"path/filepath"
+	"syscall"
 	"testing"
 
 	"github.com/spf13/afero"
@@ -332,6 +333,82 @@ func TestC10(t *testing.T) {
 					runSeq([]ioOp{{Kind: "read", N: n1}, {Kind: "readat", N: 2049, Off: 2047}, {Kind: "read", N: 17}})
 					runSeq([]ioOp{{Kind: "read", N: n1}, {Kind: "seek", Off: 17, Whence: io.SeekCurrent}, {Kind: "read", N: 2048}})
 					runSeq([]ioOp{{Kind: "seek", Off: -int64(n1), Whence: io.SeekEnd}, {Kind: "read", N: 4096}, {Kind: "read", N: 1}})
+				}
+				// an I/O error of the underlying file at the k-th operation: the failing call reports an error, and
+				// whatever is read afterwards must again be reference plaintext of some position between the old
+				// cursor and the end of the failed request (never bytes decrypted for the wrong sector)
+				if cp == 0 && !clear && (ti%7 == 0 || r.Thorough()) {
+					for _, off := range []int64{0, 2047, 3000, 2048*3 + 5} {
+						for k := 0; k < 10; k++ {
+							raw, err := osfs.Open(p)
+							must(err)
+							v := newVFs(osfs, "flt")
+							v.record = false
+							cnt := 0
+							v.Hook = func(e FsEvent) *FsFault {
+								if e.Op == "Read" || e.Op == "ReadAt" {
+									cnt++
+									if cnt-1 == k {
+										return &FsFault{Err: syscall.EIO}
+									}
+								}
+								return nil
+							}
+							view, err := pfs.NewEncryptedISO(v.wrap(raw, p), key, clear)
+							if err != nil {
+								raw.Close()
+								continue
+							}
+							// the set of positions the view's cursor may be at (ambiguous after a failed request)
+							cands := map[int64]bool{off: true}
+							view.Seek(off, io.SeekStart)
+							cnt = 0
+							for step := 0; step < 5; step++ {
+								n := []int{3000, 2049, 100, 4096, 513}[step]
+								buf := make([]byte, n)
+								var got int
+								var rerr error
+								func() {
+									defer func() {
+										if pv := recover(); pv != nil {
+											rerr = errPanic{pv}
+										}
+									}()
+									got, rerr = view.Read(buf)
+								}()
+								r.Transition(1)
+								if _, isP := rerr.(errPanic); isP {
+									r.Violation("C10:panic-after-io-error", sprintf("table %s: Read panicked around an injected I/O error (op %d): %v", tb.desc, k, rerr), rep(nil))
+									break
+								}
+								next := map[int64]bool{}
+								for c := range cands {
+									if got > 0 && (c+int64(got) > int64(len(ref)) || !bytes.Equal(buf[:got], ref[c:c+int64(got)])) {
+										continue
+									}
+									if rerr != nil && rerr != io.EOF {
+										// the cursor may or may not have advanced over (part of) the failed request
+										for d := int64(got); d <= int64(n); d++ {
+											next[c+d] = true
+										}
+									} else {
+										next[c+int64(got)] = true
+									}
+								}
+								if len(next) == 0 {
+									r.Outcome("garbage-after-io-error")
+									r.Violation("C10:wrong-bytes-after-io-error", sprintf("table %s off=%d: injected I/O error at underlying op %d; Read at step %d returned %d bytes (err %v) that are not reference plaintext of any position the cursor can be at", tb.desc, off, k, step, got, rerr), rep(nil))
+									break
+								}
+								cands = next
+								if got == 0 && rerr == io.EOF {
+									break
+								}
+							}
+							view.Close()
+							r.Outcome("io-error-continuation-ok")
+						}
+					}
 				}
 				// whole-image sequential copy (what decrypt / critical reads do)
 				for _, bs := range []int{512, 2048, 32 * 1024, 3000} {
